@@ -93,10 +93,20 @@ def make_batch(shape: str, n: int, tag: int) -> pa.RecordBatch:
 
 def content_key(batch: pa.RecordBatch) -> str:
     """Everything of a batch an application can see (schema incl. types, row count, every value), condensed."""
-    cols = [batch.column(i).to_pylist() for i in range(batch.num_columns)]
-    digest = hashlib.sha1(repr(cols).encode()).hexdigest()[:20]
-    head = [c[:2] for c in cols[:2]]
-    return f"{batch.schema.to_string(show_field_metadata=True, show_schema_metadata=True)[:200]}|{batch.num_rows}|{head}|{digest}"
+    h = hashlib.sha1()
+    head = []
+    for i in range(batch.num_columns):
+        col = batch.column(i)
+        if pa.types.is_integer(col.type) and col.null_count == 0:
+            w = col.type.bit_width // 8  # the values buffer of a null-free integer array is canonical
+            h.update(b"raw:" + str(col.type).encode())
+            h.update(memoryview(col.buffers()[1])[col.offset * w : (col.offset + len(col)) * w])
+            head.append(col.slice(0, 2).to_pylist())
+        else:
+            vals = col.to_pylist()
+            h.update(b"py:" + repr(vals).encode())
+            head.append(vals[:2])
+    return f"{batch.schema.to_string(show_field_metadata=True, show_schema_metadata=True)[:200]}|{batch.num_rows}|{repr(head[:2])[:60]}|{h.hexdigest()[:20]}"
 
 
 def raw_digest(batch: pa.RecordBatch) -> str:
@@ -460,3 +470,53 @@ def _interleave(srv: list[list[Any]], cli: list[list[Any]]) -> list[list[Any]]:
             out.append(cli[j])
             j += 1
     return out
+
+
+def probe_refused_request(request_version: bytes = b"999") -> list[tuple[int, int]]:
+    """A peer routes its request batch through shm but names a request_version the server refuses before it
+    resolves the pointer.  Returns the allocation table afterwards (observation only, see props/C29.py)."""
+    from vgi_rpc.rpc import rpc_methods
+    from vgi_rpc.utils import new_ipc_stream
+
+    old = shm_mod.SHM_MIN_BATCH_BYTES
+    shm_mod.SHM_MIN_BATCH_BYTES = 1
+    seg = shm_mod.ShmSegment.create(1 << 20)
+    cp, sp = make_pipe_pair()
+    ct, st = ShmPipeTransport(cp, seg), ShmPipeTransport(sp, seg)
+    def serve() -> None:
+        with contextlib.suppress(BaseException):
+            server().serve(st)
+
+    th = threading.Thread(target=serve, daemon=True)
+    th.start()
+    try:
+        info = rpc_methods(C29Svc)["un"]
+        batch = unary_request_batch(1, bytes([REQ_FILL]) * 5000)
+        cm = pa.KeyValueMetadata({RPC_METHOD_KEY: b"un", REQUEST_VERSION_KEY: request_version})
+        batch, cm = shm_mod.maybe_write_to_shm(batch, cm, seg)
+        with new_ipc_stream(ct.writer, info.params_schema) as w:
+            w.write_batch(batch, custom_metadata=cm)
+        done: list[Any] = []
+
+        def rd() -> None:
+            r = ipc.open_stream(ct.reader)
+            with contextlib.suppress(StopIteration):
+                while True:
+                    r.read_next_batch()
+            done.append(1)
+
+        t = threading.Thread(target=rd, daemon=True)
+        t.start()
+        t.join(10)
+        return [tuple(x) for x in read_table(seg)]
+    finally:
+        shm_mod.SHM_MIN_BATCH_BYTES = old
+        with contextlib.suppress(Exception):
+            ct.close()
+        th.join(3)
+        with contextlib.suppress(Exception):
+            st.close()
+        with contextlib.suppress(Exception):
+            seg.unlink()
+        with contextlib.suppress(Exception):
+            seg.close()
